@@ -7,5 +7,6 @@ ATextWide == { Def, Ch(1, 1, 1), Ch(Sp, 1, 2), Ch(9, 2, 0) }
 AText3 == { Def, Ch(1, 1, 1), Ch(Sp, 1, 2) }
 AImg == { Def, Ch(1, 1, 1), Ch(9, 2, 0), Img(1, 1), Img(2, 2) }
 AFull == { Def, Ch(1, 1, 1), Ch(Sp, 1, 2), Ch(9, 2, 0), Img(1, 1), Img(2, 2) }
+AImgSmall == { Def, Ch(1, 1, 1), Img(1, 1), Img(2, 2) }
 AGlyph == { Def, Ch(1, 1, 1), Img(1, 1), Img(11, 1), Img(12, 2) }
 ====
